@@ -92,6 +92,35 @@ def programs():
     add('label-end', H + 'func f() {\n\tgoto done\ndone:\n}\n')
     # F9: a key-less range loop before composite literals and unary operators on them
     add('range-then-literal', H + 'func f() {\n\tfor range ch {\n\t}\n\tx := T{}\n\t_ = -T{1}.v\n\ty := a * T{b}.v\n\tz := pkg.T{a: 1, b: 2}\n}\nfunc g() T { return T{a: 1, b: 2} }\n')
+    # F10: a line end that inserts a semicolon, reached through blanks and several comments, where the next line could
+    # continue the statement (the statement list tolerates a missing `;`, so only such pairs show a wrong line end)
+    GLUE = [('return', 'g()'), ('x := a', '-b'), ('_ = h', '(g)'), ('break', 'L()'), ('x++', '+y'), ('_ = s[i]', '[1]int{}'), ('_ = T{}', '{}')]
+    UNITS = ['/**/', '/* c */', '/***/', '/* a **/', '/*\n*/', ' ', '\t']
+    ENDS = ['', '// c', '//', '/*\n * box *\n */']
+    seqs = [[]] + [[u] for u in UNITS] + [[u, v] for u in UNITS[:5] for v in UNITS[:5]] + [[u, ' ', v] for u in UNITS[:4] for v in UNITS[:4]] + [['/**/', '/**/', '/**/'], ['/* c */', '/***/', '/* c */']]
+    for gi, (a_, b_) in enumerate(GLUE):
+        for si, sq in enumerate(seqs):
+            for e_ in (ENDS if si % 5 == gi % 5 else ENDS[:1]):
+                mid = ''.join(sq) + e_
+                if not mid: continue
+                body = 'for {\n\t\t%s%s%s\n\t\t%s\n\t}' % (a_, ' ' if mid[0] == '/' and a_[-1] in '*/' else '', mid, b_)
+                ref = 'for {\n\t\t%s;\n\t\t%s;\n\t}' % (a_, b_)
+                add('line-end-glue', H + 'func f() {\nL:\n\t%s\n}\n' % body, [H + 'func f() {\nL:\n\t%s\n}\n' % ref])
+    # F11: channel types of every direction, nested, where an expression is expected (the parser reads `<-chan T` there as
+    # a receive operation first and re-labels it)
+    DIRS = ['chan ', 'chan<- ', '<-chan ']
+    def chans(depth):
+        if depth == 0: return ['int', 'T']
+        out = []
+        for d_ in DIRS:
+            for e_ in chans(depth - 1):
+                if d_ == 'chan ' and e_.startswith('<-'): e_ = '(' + e_ + ')'
+                out.append(d_ + e_)
+        return out
+    cts = chans(1) + chans(2) + chans(3)
+    for i, ct in enumerate(cts):
+        ctx = ['var _ = make(%s)', 'var _ = make(%s, 4)', 'var _ = new(%s)', 'var _ = (%s)(x)', 'var _ = f[%s](x)', 'var _ = []%s{}', 'var _ = g(x, %s)', 'var _ = make( /* é */ %s)'][i % 8]
+        add('chan-in-expr', H + ctx % ct + '\n' + 'var _ = make(%s)\n' % ct)
     return P
 
 
